@@ -509,6 +509,8 @@ def run(ck):
         prog = r["prog"]
         if prog.get("tag", "").startswith(("param", "sum_of")) and ri % 4:
             continue
+        if ck.tier == "quick" and prog.get("tag", "").startswith("generated") and ri % 2:
+            continue
         cases = []
         ub = inject_unbound(prog, rng)
         rng.shuffle(ub)
